@@ -216,6 +216,33 @@ fn depth_of(doc: &toml_edit::DocumentMut) -> usize {
     max
 }
 
+/// The recursion-limit error is recognised by what the library itself says for two reference documents far
+/// beyond the limit (300 nested arrays, 300 nested inline tables), not by a fixed wording: a reworded message
+/// is still the recursion-limit error.  Calibrated once per worker on a large stack.
+fn limit_messages() -> &'static Vec<String> {
+    static M: std::sync::OnceLock<Vec<String>> = std::sync::OnceLock::new();
+    M.get_or_init(|| {
+        std::thread::Builder::new()
+            .stack_size(256 << 20)
+            .spawn(|| {
+                let mut v = Vec::new();
+                for text in [format!("k={}{}", "[".repeat(300), "]".repeat(300)), format!("k={}1{}", "{a=".repeat(300), "}".repeat(300))] {
+                    if let Err(e) = text.parse::<toml_edit::DocumentMut>() {
+                        v.push(e.message().to_string());
+                    }
+                }
+                v
+            })
+            .expect("spawn")
+            .join()
+            .unwrap_or_default()
+    })
+}
+
+fn is_limit_message(m: &str) -> bool {
+    m.contains("recursion limit") || limit_messages().iter().any(|x| x == m)
+}
+
 fn run_case(text: String) -> String {
     // executed on the 2 MiB thread
     match text.parse::<toml_edit::DocumentMut>() {
@@ -223,7 +250,7 @@ fn run_case(text: String) -> String {
             let m = e.message().to_string();
             let _ = e.to_string();
             let _ = toml::from_str::<toml::Value>(&text).map(|v| v.to_string());
-            if m.contains("recursion limit") {
+            if is_limit_message(&m) {
                 "REJ-LIMIT".to_string()
             } else {
                 format!("REJ-OTHER {}", m.replace('\n', " "))
